@@ -967,17 +967,34 @@ func (w *world) step(op string) string {
 			sendRes <- "ok"
 		}()
 		until(60*time.Millisecond, func() bool { return len(sendRes) > 0 })
-		p.node.Stop(w.ctx)
+		stopDone := make(chan struct{})
+		go func() { p.node.Stop(w.ctx); close(stopDone) }()
+		stop := "ok"
+		if !until(routeWait, func() bool {
+			select {
+			case <-stopDone:
+				return true
+			default:
+				return false
+			}
+		}) {
+			stop = "hung" // Stop waits for ever (for the queue's lock, say): nothing more can be observed on this node
+			w.hung = true
+		}
 		p.stage = 'x'
 		st := "hung"
-		if until(routeWait, func() bool { return len(sendRes) > 0 }) {
+		if stop == "ok" && until(routeWait, func() bool { return len(sendRes) > 0 }) {
 			st = <-sendRes
 		} else {
 			w.hung = true
 		}
 		p.conn.Close()
 		<-floodDone
-		res = fmt.Sprintf("wrote=%d sendtx=%s run=%s", minInt64(atomic.LoadInt64(&wrote), 1001), st, w.waitRun(p))
+		run := "hung"
+		if stop == "ok" {
+			run = w.waitRun(p)
+		}
+		res = fmt.Sprintf("wrote=%d stop=%s sendtx=%s run=%s", minInt64(atomic.LoadInt64(&wrote), 1001), stop, st, run)
 		atomic.StoreInt32(&p.stalled, 0)
 		p.mu.Lock()
 		p.closed = true
@@ -1014,6 +1031,11 @@ func (w *world) step(op string) string {
 		return w.hostile(op, a)
 	case "reqheaders", "reqtxs", "reqblock", "sendtx":
 		return w.route(verb, op, a)
+	}
+	if w.hung {
+		// a call is stuck with the manager's mutex held (or a Stop never returned): the common tail would take that
+		// mutex; the run ends here
+		return op + " => " + res
 	}
 	return op + " => " + res + " " + w.tail()
 }
